@@ -2,6 +2,7 @@ import CoupeModel.Model.Fm
 import CoupeModel.Driver.Util
 
 /-!
+op: `fmbig …` (large, oracle only) | `fmr fm <input 1> ;; fm <input 2>` (object reuse) |
 op: `fm <wt:i|f> <max_imbalance: none|f64 bits hex> <max_bad> <max_passes: none|N>
         <max_moves: none|N> <rows> {<deg> {<nbr> <w>}} <m> <ids…> <l> <weights…>
         [=> <the implementation's canonical line>]`
@@ -178,10 +179,8 @@ def tieProbe (toks : List String) : String :=
     | .ok r => if tieSensitive r then "tie" else "notie"
     | _ => "other"
 
-def handle (toks : List String) : String :=
-  match toks with
-  | "tie?" :: rest => tieProbe rest
-  | _ =>
+/-- `fm` op. -/
+def handleFm (toks : List String) : String :=
   match parseCase toks with
   | none => "bad-op"
   | some (c, rest) =>
@@ -222,5 +221,18 @@ def handle (toks : List String) : String :=
         | _ => line
       | _ => line
     | _ => line
+
+/-- `fmbig …`: large generated case, oracle only (the list-based model costs O(n²) per move and the
+output depends on the hash order). `fmr fm <input 1> ;; fm <input 2> [=> line]`: object reuse; the
+line must be a result of the model on input 2 alone. -/
+def handle (toks : List String) : String :=
+  match toks with
+  | "tie?" :: rest => tieProbe rest
+  | "fmbig" :: _ => "skip large-n (oracle only)"
+  | "fmr" :: rest =>
+    match (rest.dropWhile (· ≠ ";;")) with
+    | _ :: second => handleFm second
+    | [] => "bad-op"
+  | _ => handleFm toks
 
 end Coupe.Driver.C07
